@@ -234,7 +234,7 @@ func HarnessC15() {
 	maxCalls := verifParam("maxCalls")
 	verifCancel = cancel
 	verifCancelAt, verifFailAt, verifPersistent = 0, 0, false
-	cls := "plain"
+	cls := w.shape.name + " | plain"
 	switch verifChoice(3) {
 	case 1:
 		// cancellation before the start (0) or during storage call c
@@ -244,11 +244,11 @@ func HarnessC15() {
 		} else {
 			verifCancelAt = c
 		}
-		cls = "cancelled"
+		cls = w.shape.name + " | cancelled"
 	case 2:
 		verifFailAt = verifIntRange(1, maxCalls)
 		verifPersistent = verifBool()
-		cls = "storage-fault"
+		cls = w.shape.name + " | storage-fault"
 	}
 	if w.shape.hasTTU() {
 		cls += "+traverse"
